@@ -32,6 +32,9 @@ def gen(rng, tier, k=0):
     cfg['inv_update_steps'] = rng.choice([1, 2, 3, 4])
     if rng.random() < 0.4:
         cfg['damping'] = ['table', [0.25 + 0.125 * ((5 * s) % 7) for s in range(12)]]
+    if k % 3 == 1:
+        # mixed precision (autocast): the factors are bfloat16 while the weights are float32; a round trip must keep values AND dtype
+        cfg['autocast'] = True; cfg['model_dtype'] = 'float32'; cfg.pop('factor_dtype', None)
     if k % 3 == 0:
         # every third configuration: a step-dependent damping that is baked into the second-order data and inverses reused across
         # steps, so that a checkpoint off the inverse interval distinguishes "damping of the restored step" from any other
@@ -130,7 +133,7 @@ def run(tier, seed, rng):
                         probs.append(f'rank {r}: no result ({None if wB is None else wB.exceptions.get(r)})')
                         continue
                     # errors only where the machine predicts them
-                    p5, _, _ = verify(cfg, hist, rb, moB, [], tolmul=1.0)
+                    p5, _, _ = verify(cfg, hist, rb, moB, [], tolmul=(4000.0 if cfg.get('autocast') else 1.0))   # bfloat16 factors: eps = 2^-8
                     probs += [f'rank {r}: {x}' for x in p5[:2]]
                     if len(rb) <= b + 1 or rb[b + 1]['error']:
                         continue
@@ -147,6 +150,8 @@ def run(tier, seed, rng):
                             for li, ((a, g), (pa, pg)) in enumerate(zip(after_load['factors'], ref['factors'])):
                                 if not (torch.equal(a, pa) and torch.equal(g, pg)):
                                     probs.append(f'rank {r} layer {li}: factors after load differ from the saved ones')
+                                elif a.dtype != pa.dtype or g.dtype != pg.dtype:
+                                    probs.append(f'rank {r} layer {li}: factors restored as {a.dtype}/{g.dtype}, saved as {pa.dtype}/{pg.dtype}')
                     # (2) continuation
                     for j in range(b, len(base)):
                         if base[j][0] != 'step' or j + 2 >= len(hist):
